@@ -176,6 +176,11 @@ parseField:
 					// Hit next quote.
 					buffers.recordBuffer = append(buffers.recordBuffer, data[:i]...)
 					data = data[i+quoteLen:]
+					if len(data) == 0 {
+						// `"` at the end of data without newline (end of data).
+						buffers.fieldIndexes = append(buffers.fieldIndexes, len(buffers.recordBuffer))
+						break parseField
+					}
 					switch rn := data[0]; {
 					case rn == quoteChar:
 						// `""` sequence (append quote).
